@@ -249,6 +249,57 @@ class Sym:
             if space.solver.check(e) == z3.sat:
                 self.tags[tag] = 1
 
+    def model_str_repr(self):
+        """repr() of a symbolic str (f-string `{x!r}` / `{x =}` in hio's error messages) stays symbolic: quote + s + quote,
+        instead of CrossHair's realisation, which turns every message into one path per concrete value.  Exact for strings
+        free of quotes, backslashes and non-printables; repr() of symbolic bytes becomes a fixed placeholder.  Harnesses use
+        it only where the text goes to a message nobody reads (the path-fidelity audit re-runs sampled paths concretely)."""
+        with NoTracing():
+            from crosshair.libimpl.builtinslib import AnySymbolicStr
+            if not getattr(AnySymbolicStr, '_vf_repr', False):
+                AnySymbolicStr.__repr__ = lambda s: "'" + s + "'"
+                AnySymbolicStr._vf_repr = True
+                from crosshair.libimpl.builtinslib import BytesLike, SymbolicBytes, SymbolicByteArray
+                for cls in (BytesLike, SymbolicBytes, SymbolicByteArray):      # bytes in messages: a placeholder, never read
+                    cls.__repr__ = lambda s: "b'<%d symbolic bytes>'" % len(s)
+
+    def model_int_or(self):
+        """`a | b` on symbolic ints: CrossHair realises both operands (one path per value).  Model: identity when one side is
+        the concrete 0, x + y when the solver proves the operands occupy disjoint bit ranges (x < 2**k, 2**k divides y), else 64-bit bit-vector OR (z3 int2bv / bv2int) for operands the solver proves in [0, 2**64); otherwise
+        CrossHair's realisation.  Exact on that range."""
+        with NoTracing():
+            from crosshair.libimpl import builtinslib as bl
+            import operator as ops
+            if getattr(bl, '_vf_or', False):
+                return
+            from typing import Union
+
+            def _(op, a: Union[SymbolicInt, int], b: Union[SymbolicInt, int]):
+                with NoTracing():
+                    asym, bsym = isinstance(a, SymbolicInt), isinstance(b, SymbolicInt)
+                    if not asym and not isinstance(a, bool) and a == 0:
+                        return b
+                    if not bsym and not isinstance(b, bool) and b == 0:
+                        return a
+                    if asym or bsym:
+                        space = context_statespace()
+                        av = a.var if asym else z3.IntVal(int(a))
+                        bv = b.var if bsym else z3.IntVal(int(b))
+                        lim = z3.IntVal(2 ** 64)
+                        inr = z3.And(av >= 0, av < lim, bv >= 0, bv < lim)
+                        if space.solver.check(z3.Not(inr)) == z3.unsat:
+                            # disjoint bit ranges (digits being packed): x < 2**k and y a multiple of 2**k  =>  x | y == x + y
+                            for (x, y) in ((av, bv), (bv, av)):
+                                for k in (6, 12, 18, 24, 30, 36, 8, 16, 32, 1, 2, 3, 4, 5, 7):
+                                    p = z3.IntVal(2 ** k)
+                                    if space.solver.check(z3.Not(z3.And(x < p, y % p == 0))) == z3.unsat:
+                                        return SymbolicInt(x + y)
+                            return SymbolicInt(z3.BV2Int(z3.Int2BV(av, 64) | z3.Int2BV(bv, 64)))
+                return op(a.__index__(), b.__index__())
+            bl.setup_binop(_, {ops.or_})
+            bl._BIN_OPS.clear()
+            bl._vf_or = True
+
     def note(self, key, value):
         with NoTracing():
             self.notes[key] = value
